@@ -11,7 +11,7 @@ from . import C06 as _c06  # noqa  (AddCashFlow, AddTerm)
 from . import C12 as _c12  # noqa  (create_equation_from_terms)
 from . import C18 as _c18  # noqa  (CurrencyZone.GetSectors: exactly the sectors of the zone; SetEquationRightHandSide)
 
-P = Property('C04', 'proof',
+P = Property('C04', 'other',
              'Contract on the real AST of Market._GenerateTermsLowLevel: the demand equation of a market is built from exactly those sectors of the '
              "market's currency zone (every one, in any position of the list, none else; CurrencyZone.GetSectors verified in C18) that declare the demand "
              'variable (DEM_<code> inside the country, DEM_<full code> from another country of the zone), each of them is booked the matching outflow, '
